@@ -32,8 +32,13 @@ PROP = dict(
         "Consequence: the score proviso of the pre-survey is vacuous for this engine (generator_stats."
         "default_is_x_although_a_split_outscores_it counts real runs where a split out-scores X and X is still the default); "
         "top_is_default_scored keeps the proviso version for an engine without trimming.",
-        "after close and reopen: learned_persists assumes reopening preserves the map (C10/C11); the harness checks it on file-backed "
-        "traces, waiting for the background writer before closing (the in-flight-writer schedule is C10's F12)",
+        "after close and reopen: learned_persists keeps the explicit hypothesis `reopening preserves the map`; learned_persists_linked "
+        "(Proofs/LearnLink.lean) DISCHARGES it: the hypothesis is replaced by C10.durable_lookup_linked (C10's protocol, every schedule "
+        "of the snapshot writer, over C09's concrete TrieBuf layers / entries() / TrieBuilder) and C09.layered_over_map; "
+        "learn_is_dictionary_call_linked ties one learn_phrase of this model (UserMap.insert) to the DictionaryMut call of C09's MapSpec "
+        "(add_phrase accepted because the phrase is not live / update_phrase). STILL TRUSTED there: a complete file is the leaves written "
+        "(C09's file abstraction; the byte-level round trip is C11) and the step-model assumptions of C10. The harness checks persistence on "
+        "file-backed traces, waiting for the background writer before closing (the in-flight-writer schedule is C10's F12)",
         "candidate window = merged lookup of the range (C07); commit of a chosen phrase yields the single interval (C04)",
         "F07 (bare public estimate() panics when the stored time is in the future or freq < 10 in the long-gap band) is recorded "
         "against the function: estimate_no_panic gives the exact precondition, the model predicts every panic of the grid "
@@ -51,9 +56,9 @@ MANIFEST = dict(
          "single-character reading refuted by design), user dictionary unchanged when disabled, learned phrase listed by the merged lookup, "
          "50 <= 64 learnings put X strictly above every homophone for all frequency pairs <= 1 000 000 (monotone gap induction, no pair "
          "enumeration; 50 is tight), and then X is the default conversion of the bare syllables: BFS shortest path = whole-range edge and "
-         "trim_paths removes all competitors are proved, the graph construction is hypothesis + correspondence (partial). Persistence across reopen: explicit hypothesis + harness. "
+         "trim_paths removes all competitors are proved, the graph construction is hypothesis + correspondence (partial). Persistence across reopen: learned_persists (explicit hypothesis) and learned_persists_linked (hypothesis discharged by C10's durability theorem over C09's concrete TrieBuf + C09's Layered theorem; remaining assumption: file = leaves written, C11) + harness. "
          "Tie: translator + per-step correspondence through a real Editor (in-memory and file-backed user dictionaries) + exact estimate grid.",
     note="Trusted: Lean kernel (axioms propext, Classical.choice, Quot.sound only), tools/extract.py, the harness and the compiled model driver. "
-         "partial clauses: top_is_default (graph-construction hypotheses), persistence (reopen hypothesis), candidate window (C07).",
+         "partial clauses: top_is_default (graph-construction hypotheses), persistence (learned_persists_linked: reopen hypothesis discharged by C10.durable_lookup_linked + C09.layered_over_map; remaining: trie-file byte round trip = C11, C10's step-model assumptions), candidate window (C07).",
     technique="Lean 4 proof (induction, invariants, omega over translator-regenerated constants) + sampled model/implementation correspondence with a statement-level oracle",
 )
